@@ -1,6 +1,8 @@
 import Driver.Mem
+import Driver.Chain
 
 def main (args : List String) : IO UInt32 := do
   match args with
   | ["mem"] => Driver.Mem.run; return 0
+  | ["chain"] | ["queue"] | ["stack"] | ["list"] => Driver.Chain.run; return 0
   | _ => IO.eprintln "usage: lmdriver <model>"; return 2
